@@ -589,6 +589,12 @@ func (x *Exec) nativeValues(m map[int]*big.Int) map[string]interface{} {
 				}
 				out[in.Name] = bs
 			}
+		case "env":
+			if val(in.Terms[0]).Sign() != 0 {
+				out[in.Name] = ""
+			} else {
+				out[in.Name] = "@FILE"
+			}
 		case "opaque":
 			out[in.Name] = x.inst.opaquePick(in.Name)
 		case "preform":
